@@ -356,6 +356,7 @@ def histories(ctx):
         tags = [rng.choice([ABSENT, "u", "v", "u", None]) for _ in range(k)]
         first = True
         log = []
+        tags0 = list(tags)
         for nodes, par, ch, case in TR.evolving_universe(ctx, rng, "AnyNode", k, rng.randint(4, 14), fault_rate=(0.3 if h % 2 else 0.0)):
             if first:
                 for i, n in enumerate(nodes):
@@ -375,7 +376,7 @@ def histories(ctx):
                     nodes[i].tag = new
             ctx.count("C14.after_mutation")
             roots = [i for i in range(k) if par[i] is None]
-            c2 = dict(case, tags=list(tags), tag_changes=[list(x) for x in log])
+            c2 = dict(case, tags=list(tags), tags0=list(tags0), tag_changes=[list(x) for x in log])
             for s in [roots[0], rng.randrange(k)]:
                 if not check_tree(ctx, nodes, list(tags), ch, s, c2, bounds_all=False):
                     return
@@ -394,13 +395,24 @@ def replay(ctx, wit):
         final = norm_tags(c["tags"])
         for step, (nodes, par, ch) in enumerate(states):
             if step == 0:
-                # initial tags are unknown after later changes: reconstruct backwards is not possible, so start from the final ones
-                cur = list(final)
+                # older witnesses do not carry the initial tags: start from the final ones then
+                cur = norm_tags(c["tags0"]) if "tags0" in c else list(final)
                 for i, n in enumerate(nodes):
                     n.name = "nm"
                     if cur[i] is not ABSENT:
                         n.tag = cur[i]
-            check_tree(ctx, nodes, cur, ch, c.get("start", 0), dict(c), bounds_all=False)
+            for at, i, new in changes if "tags0" in c else ():
+                if at == step:
+                    new = ABSENT if new == ABSENT else new
+                    cur[i] = new
+                    if new is ABSENT:
+                        if hasattr(nodes[i], "tag"):
+                            del nodes[i].tag
+                    else:
+                        nodes[i].tag = new
+            roots = [i for i in range(len(nodes)) if par[i] is None]
+            for s_ in sorted(set([c.get("start", 0), roots[0]] + list(range(len(nodes))))):
+                check_tree(ctx, nodes, cur, ch, s_, dict(c), bounds_all=False)
         return
     nodes = build(c["par"], tags, c.get("variant", "plain"))
     check_tree(ctx, nodes, tags, gen.children_of(c["par"]), c.get("start", 0), {"par": c["par"], "tags": c["tags"], "variant": c.get("variant", "plain")}, bounds_all=True)
